@@ -17,8 +17,12 @@ pub struct Plan {
 #[derive(Serialize, Deserialize, Clone, Debug, PartialEq)]
 pub struct Incarnation {
     pub sched: SchedCfg,
-    /// simulated wall clock (unix ms) at process start
+    /// simulated wall clock (unix ms) at process start (first incarnation)
     pub clock_start_ms: u64,
+    /// later incarnations: start = simulated clock at the end of the previous incarnation + delta
+    /// (negative = the wall clock moved backwards between runs)
+    #[serde(default)]
+    pub clock_delta_ms: Option<i64>,
     /// "fd" or "mmap" (process-global in the engine)
     pub backend: String,
     pub phases: Vec<Phase>,
@@ -355,7 +359,9 @@ pub fn entry_sig(data: &[u8]) -> (u64, u64, u64) {
     (data.len() as u64, crate::rng::fnv64(data), seq)
 }
 
+/// Model-side signature: (len, hash, origin) where origin always identifies (op, idx),
+/// also for payloads too short to carry the harness header.
 pub fn expected_sig(seed: u64, topic: u32, op: u32, idx: u32, len: u64) -> (u64, u64, u64) {
     let p = payload(seed, topic, op, idx, len);
-    entry_sig(&p)
+    (p.len() as u64, crate::rng::fnv64(&p), seq_of(op, idx))
 }
